@@ -6,8 +6,8 @@ from __future__ import annotations
 import ast
 from typing import Any
 
-from ..astutil import (Locals, anon, call_name, cfg_of, error_names, find_stmts, local_names, norm, receivers, returns_error, short,
-                       stmt_calls, truth_table, where)
+from ..astutil import (Locals, anon, call_name, cfg_of, error_names, find_stmts, local_names, norm, receivers, region, returns_error,
+                       short, stmt_calls, terminals, where)
 from ..cfg import CFG, walk_own
 from ..core import PKG, Report
 from ..pyindex import FuncInfo, dotted
@@ -29,52 +29,149 @@ FROZEN = {
 }
 
 
-def _reg_of(e: ast.AST, names: set[str]) -> str:
-    """registry named by expression e: a local accumulator by its own name, an attribute registry by its last component"""
+def _copy_source(v: ast.AST) -> ast.AST:
+    """X when v is X itself or a shallow copy of it: dict(X), X.copy(), copy(X), {**X} / {**X, k: v}"""
+    if isinstance(v, ast.Call):
+        if call_name(v) in ("dict", "copy", "copy.copy", "set") and len(v.args) == 1 and not v.keywords:
+            return v.args[0]
+        if isinstance(v.func, ast.Attribute) and v.func.attr == "copy" and not v.args and not v.keywords:
+            return v.func.value
+    if isinstance(v, ast.Dict):
+        spreads = [x for k, x in zip(v.keys, v.values) if k is None]
+        if len(spreads) == 1:
+            return spreads[0]
+    return v
+
+
+def _aliases(fn: ast.AST) -> dict[str, str]:
+    """local name -> attribute registry, for locals only ever bound to such a registry or to a shallow copy of it (the copy that
+    is filled and then handed to evolve(...) stands for the registry it was copied from).  Found by what the local is bound
+    from, never by how it is spelled."""
+    out: dict[str, str] = {}
+    for name, ds in Locals(fn).defs.items():
+        regs = set()
+        for k, _, v in ds:
+            src = _copy_source(v) if k == "assign" and v is not None else None
+            d = (dotted(src) or "").rsplit(".", 1)[-1] if isinstance(src, ast.Attribute) else ""
+            regs.add(d if d in ATTR_REGISTRIES else "")
+        if len(regs) == 1 and "" not in regs:
+            out[name] = next(iter(regs))
+    return out
+
+
+def _reg_of(e: ast.AST, names: set[str], aliases: "dict[str, str] | None" = None) -> str:
+    """registry named by expression e: a local accumulator by its own name, an attribute registry by its last component, a local
+    alias / working copy of an attribute registry by the registry it was taken from"""
     if isinstance(e, ast.Name):
-        return e.id if e.id in names else ""
+        if aliases and aliases.get(e.id) in names:
+            return aliases[e.id]
+        return e.id if e.id in names and e.id not in ATTR_REGISTRIES else ""
+    if isinstance(e, ast.Call) and isinstance(e.func, ast.Attribute) and e.func.attr == "keys" and not e.args:
+        return _reg_of(e.func.value, names, aliases)
     d = (dotted(e) or "").rsplit(".", 1)[-1]
     return d if d in names and d in ATTR_REGISTRIES else ""
 
 
+def _key_alternatives(fn: ast.AST, key: ast.expr, depth: int = 3) -> list[ast.expr]:
+    """the expressions a stored key can be: a conditional expression is either of its arms; a local that is only bound by plain
+    assignments is what it is bound to - any of the values when different branches bind different ones"""
+    if isinstance(key, ast.IfExp):
+        alts = _key_alternatives(fn, key.body, depth) + _key_alternatives(fn, key.orelse, depth)
+    elif isinstance(key, ast.Name) and depth > 0:
+        ds = _locals(fn).defs.get(key.id, [])
+        sig = getattr(fn, "args", None)
+        is_param = isinstance(sig, ast.arguments) and key.id in {x.arg for x in [*sig.posonlyargs, *sig.args, *sig.kwonlyargs]}
+        if ds and not is_param and all(k == "assign" and v is not None for k, _, v in ds):
+            alts = [alt for _, _, v in ds for alt in _key_alternatives(fn, v, depth - 1)]
+        else:
+            alts = [key]
+    else:
+        alts = [key]
+    seen: set[str] = set()
+    return [a for a in alts if not (norm(a) in seen or seen.add(norm(a)))]
+
+
+def same_key(a: ast.AST, b: ast.AST, fn: ast.AST) -> bool:
+    """two key expressions denote the same key: equal text, or equal once the locals that are bound exactly once are replaced by
+    what they are bound to (`name = info.name; if name in reg` tests the key of `reg[info.name] = ...`)"""
+    return norm(a) == norm(b) or norm(_inline_locals(a, fn)) == norm(_inline_locals(b, fn))
+
+
 def _registry_stores(f: FuncInfo, names: set[str]) -> list[tuple[ast.stmt, str, ast.expr, str]]:
-    """(statement, registry name, key expr, kind) for stores into one of the registries `names`."""
-    out = []
+    """(statement, registry name, key expr, kind) for stores into one of the registries `names`.  A key that is a choice between
+    several expressions (see _key_alternatives) and is not itself the subject of a membership test counts as one store per
+    alternative: each must be justified on its own."""
+    out: list[tuple[ast.stmt, str, ast.expr, str]] = []
+    aliases = _aliases(f.node)
+    tested: dict[str, list[ast.expr]] = {}
+
+    def emit(st: ast.stmt, reg: str, key: ast.expr, kind: str) -> None:
+        if reg not in tested:
+            tested[reg] = [k for _, k in membership_tests(f, reg)]
+        if any(same_key(k, key, f.node) for k in tested[reg]):
+            out.append((st, reg, key, kind))
+            return
+        for alt in _key_alternatives(f.node, key):
+            out.append((st, reg, alt, kind))
+
     for st in ast.walk(f.node):
         if not isinstance(st, ast.stmt):
             continue
         if isinstance(st, (ast.FunctionDef, ast.AsyncFunctionDef, ast.ClassDef)) and st is not f.node:
             continue
-        for n in walk_own(st):
+        own = list(walk_own(st))
+        kw_dicts = {id(n.value): n.arg for n in own if isinstance(n, ast.keyword) and n.arg in names and isinstance(n.value, ast.Dict)}
+        for n in own:
             # X[K] = V
             if isinstance(n, ast.Assign):
                 for t in n.targets:
                     if isinstance(t, ast.Subscript):
-                        reg = _reg_of(t.value, names)
+                        reg = _reg_of(t.value, names, aliases)
                         if reg:
-                            out.append((st, reg, t.slice, "subscript"))
-            # evolve(x, reg={**x.reg, K: V})  /  reg={K: V, **x.reg}
-            if isinstance(n, ast.keyword) and n.arg in names and isinstance(n.value, ast.Dict):
-                if any(k is None for k in n.value.keys):
-                    for k in n.value.keys:
+                            emit(st, reg, t.slice, "subscript")
+            # {**x.reg, K: V} / {K: V, **x.reg}: the registry with one more entry, wherever the display is written (argument of
+            # evolve(x, reg=...), or bound to a local first)
+            if isinstance(n, ast.Dict) and any(k is None for k in n.keys):
+                reg = kw_dicts.get(id(n)) or next((r for k, v in zip(n.keys, n.values) if k is None
+                                                   for r in [_reg_of(v, names, aliases)] if r), "")
+                if reg:
+                    for k in n.keys:
                         if k is not None:
-                            out.append((st, n.arg, k, "spread"))
-            if isinstance(n, ast.Call) and isinstance(n.func, ast.Attribute) and n.func.attr in ("setdefault",):
-                reg = _reg_of(n.func.value, names)
-                if reg and n.args:
-                    out.append((st, reg, n.args[0], "setdefault"))
-            if isinstance(n, ast.Call) and isinstance(n.func, ast.Attribute) and n.func.attr == "add":
-                reg = _reg_of(n.func.value, names)
-                if reg and n.args:
-                    out.append((st, reg, n.args[0], "add"))
+                            emit(st, reg, k, "spread")
+            # x.reg | {K: V}
+            if isinstance(n, ast.BinOp) and isinstance(n.op, ast.BitOr):
+                for a, b in ((n.left, n.right), (n.right, n.left)):
+                    reg = _reg_of(a, names, aliases)
+                    if reg and isinstance(b, ast.Dict):
+                        for k in b.keys:
+                            if k is not None:
+                                emit(st, reg, k, "spread")
+            if isinstance(n, ast.Call) and isinstance(n.func, ast.Attribute) and n.func.attr in ("setdefault", "add") and n.args:
+                reg = _reg_of(n.func.value, names, aliases)
+                if reg:
+                    emit(st, reg, n.args[0], n.func.attr)
+            if isinstance(n, ast.Call) and isinstance(n.func, ast.Attribute) and n.func.attr == "update" and n.args and \
+                    isinstance(n.args[0], ast.Dict):
+                reg = _reg_of(n.func.value, names, aliases)
+                if reg:
+                    for k in n.args[0].keys:
+                        if k is not None:
+                            emit(st, reg, k, "subscript")
     # nested functions are separate FuncInfos; drop statements that belong to them
     nested = [g for g in ast.walk(f.node) if isinstance(g, (ast.FunctionDef, ast.AsyncFunctionDef)) and g is not f.node]
     inner = {id(s) for g in nested for s in ast.walk(g)}
     return [x for x in out if id(x[0]) not in inner]
 
 
-def _holders(st: ast.stmt, reg: str) -> set[str]:
-    """local names through which statement st reaches registry `reg`: the root of `<root>...reg`, or reg itself when it is a local"""
+def _alias_definitions(fn: ast.AST, reg: str) -> list[ast.stmt]:
+    """the statements that bind a local alias / working copy of registry `reg`"""
+    al = {n for n, r in _aliases(fn).items() if r == reg}
+    return [st for n, ds in Locals(fn).defs.items() if n in al for _, st, _v in ds if isinstance(st, ast.stmt)]
+
+
+def _holders(st: ast.stmt, reg: str, aliases: "dict[str, str] | None" = None) -> set[str]:
+    """local names through which statement st reaches registry `reg`: the root of `<root>...reg`, reg itself when it is a local,
+    a local alias / working copy of it"""
     out = set()
     for n in walk_own(st):
         if isinstance(n, ast.Attribute) and n.attr == reg:
@@ -83,17 +180,18 @@ def _holders(st: ast.stmt, reg: str) -> set[str]:
                 root = root.func if isinstance(root, ast.Call) else root.value
             if isinstance(root, ast.Name):
                 out.add(root.id)
-        elif isinstance(n, ast.Name) and n.id == reg:
-            out.add(reg)
+        elif isinstance(n, ast.Name) and (n.id == reg or (aliases or {}).get(n.id) == reg):
+            out.add(n.id)
     return out
 
 
-def _rebound_between(cfg: CFG, test: ast.stmt, store: ast.stmt, holders: set[str]) -> list[ast.stmt]:
-    """statements that assign one of `holders` on some path test -> ... -> store (not passing the test again)"""
+def _rebound_between(cfg: CFG, test: ast.stmt, store: ast.stmt, holders: set[str], benign: "list[ast.stmt] | None" = None) -> list[ast.stmt]:
+    """statements that assign one of `holders` on some path test -> ... -> store (not passing the test again); `benign` are
+    statements known not to change what the holders stand for (taking the working copy of the registry)"""
     out = []
     between = cfg.reachable_from(test, avoid=lambda n: n is store or n is test)
     for r in between:
-        if not isinstance(r, ast.stmt) or r is test or r is store:
+        if not isinstance(r, ast.stmt) or r is test or r is store or any(r is b for b in benign or []):
             continue
         if any(isinstance(x, ast.Name) and isinstance(x.ctx, ast.Store) and x.id in holders for x in walk_own(r)):
             if store in cfg.reachable_from(r, avoid=lambda n: n is test):
@@ -101,20 +199,36 @@ def _rebound_between(cfg: CFG, test: ast.stmt, store: ast.stmt, holders: set[str
     return sorted(out, key=lambda s_: getattr(s_, "lineno", 0))
 
 
-def _membership_tests(f: FuncInfo, reg: str) -> list[tuple[ast.stmt, str]]:
-    """statements of f that test `K in <...>.reg` / call reg.pop(K) / reg.get(K): (stmt, normalised K)"""
-    out = []
+def membership_tests(f: FuncInfo, reg: str) -> list[tuple[ast.stmt, ast.expr]]:
+    """statements of f that find out whether key K is in registry `reg`: `K in <...>.reg` (or its .keys()), reg.pop(K) / reg.get(K),
+    `reg[K]` read under a handler for the missing key; the registry may be reached through a local alias: (stmt, K)"""
+    out: list[tuple[ast.stmt, ast.expr]] = []
+    aliases = _aliases(f.node)
+    guarded: dict[int, ast.Try] = {}
+    for t in ast.walk(f.node):
+        if isinstance(t, ast.Try) and any(h.type is None or {x.rsplit(".", 1)[-1] for x in [dotted(e) or "" for e in (
+                h.type.elts if isinstance(h.type, ast.Tuple) else [h.type])]} & {"KeyError", "LookupError", "Exception"} for h in t.handlers):
+            guarded.update({id(s): t for b in t.body for s in ast.walk(b) if isinstance(s, ast.stmt)})
     for st in ast.walk(f.node):
         if not isinstance(st, ast.stmt):
             continue
         for n in walk_own(st):
             if isinstance(n, ast.Compare) and len(n.ops) == 1 and isinstance(n.ops[0], (ast.In, ast.NotIn)):
-                if _reg_of(n.comparators[0], {reg}) == reg:
-                    out.append((st, norm(n.left)))
+                if _reg_of(n.comparators[0], {reg}, aliases) == reg:
+                    out.append((st, n.left))
             if isinstance(n, ast.Call) and isinstance(n.func, ast.Attribute) and n.func.attr in ("pop", "get") and n.args:
-                if _reg_of(n.func.value, {reg}) == reg:
-                    out.append((st, norm(n.args[0])))
+                if _reg_of(n.func.value, {reg}, aliases) == reg:
+                    out.append((st, n.args[0]))
+            if isinstance(n, ast.Subscript) and isinstance(n.ctx, ast.Load) and id(st) in guarded and \
+                    _reg_of(n.value, {reg}, aliases) == reg:
+                # the `try` statement as a whole is the test: its body may be left for the handler at any point
+                out.append((guarded[id(st)], n.slice))
     return out
+
+
+def _membership_tests(f: FuncInfo, reg: str) -> list[tuple[ast.stmt, str]]:
+    """membership_tests with the key as normalised text (kept for importers)"""
+    return [(st, norm(k)) for st, k in membership_tests(f, reg)]
 
 
 # Registries reached through attributes are part of the data model and are named; registries that are local variables are found
@@ -171,16 +285,19 @@ def check_registries(rep: Report, ctx: Any, rid: str) -> None:
             continue
         cfg = cfg_of(f, cfgs)
         errs = error_names(f.node)
+        aliases = _aliases(f.node)
         lnames = local_names(f.node) | (local_names(f.parent.node) if f.parent is not None else set())
+        mods: "set[str] | None" = None
         for st, reg, key, kind in stores:
             n_stores += 1
             ckey = f"{short(f)}::{registry_label(reg, locs)}[{anon(key, lnames)}]"
-            if ckey in FROZEN:
-                rep.ok(rid, ckey, "frozen: unique by construction", FROZEN[ckey], nontrivial=False)
+            frozen = ckey if ckey in FROZEN else f"{short(f)}::{registry_label(reg, locs)}[{anon(_inline_locals(key, f.node), lnames)}]"
+            if frozen in FROZEN:
+                rep.ok(rid, frozen, "frozen: unique by construction", FROZEN[frozen], nontrivial=False)
                 continue
-            tests = _membership_tests(f, reg)
-            same = [t for t, k in tests if k == norm(key)]
-            other = sorted({k for t, k in tests if k != norm(key)})
+            tests = membership_tests(f, reg)
+            same = [t for t, k in tests if same_key(k, key, f.node)]
+            other = sorted({norm(k) for t, k in tests if not same_key(k, key, f.node)})
             if isinstance(key, ast.Constant):
                 # a literal key names a fixed slot of the program, not an item of the document: no two items can meet in it
                 rep.ok(rid, ckey, "literal key", "not derived from the document", nontrivial=False)
@@ -204,17 +321,21 @@ def check_registries(rep: Report, ctx: Any, rid: str) -> None:
                                          "python_name collision loop ending in _resolve_naming_conflict", where(f, st),
                           lhs="store " + norm(st)[:80], rhs="dominated by `for other_prop in properties.values(): ... python_name ...`")
                 continue
-            if f.name == "_check_parameters_for_conflicts" and reg in locs:
-                dominated = any(cfg.is_dominated_by(st, lambda n, t=t: n is t) for t in same)
-                if not dominated:
-                    # alternative: the modification is recorded before the store on every path (a re-check is forced)
-                    mods = modification_sets(f)
-                    dominated = cfg.is_dominated_by(st, lambda n: isinstance(n, ast.stmt) and any(
-                        r in mods for r, c in receivers(n, "add") if any(c is x for x in walk_own(n))))
-                rep.check(dominated, rid, ckey, "store into the per-operation name table without a dominating pop/membership "
-                                                "test of the same key expression", where(f, st),
-                          lhs="store " + norm(st)[:80], rhs=f"dominated by pop/in on `{norm(key)}`")
-                continue
+            if reg in locs:
+                if mods is None:
+                    mods = modification_sets(f, ix)
+                if mods:
+                    # a table kept by a pass that is re-run whenever something was modified (the pass records modifications in a
+                    # set that decides the re-run): a store is justified by a dominating pop / membership test of its key, or by a
+                    # modification recorded before it on every path - the next pass compares the entry again
+                    dominated = any(cfg.is_dominated_by(st, lambda n, t=t: n is t) for t in same)
+                    if not dominated:
+                        helpers = _helpers_of(ix, f)
+                        dominated = cfg.is_dominated_by(st, lambda n: isinstance(n, ast.stmt) and bool(_adds_into(f, n, helpers) & mods))
+                    rep.check(dominated, rid, ckey, "store into the per-operation name table without a dominating pop/membership "
+                                                    "test of the same key expression", where(f, st),
+                              lhs="store " + norm(st)[:80], rhs=f"dominated by pop/in on `{norm(key)}`")
+                    continue
             if not same:
                 msg = "no membership test on the stored key in the same collection"
                 if other:
@@ -235,12 +356,17 @@ def check_registries(rep: Report, ctx: Any, rid: str) -> None:
                          where(f, st), lhs="test " + norm(t0)[:80], rhs="reaches `return <error>` avoiding the store")
                 continue
             # test and store must see the same registry: the variable holding it is not rebound on any path between them (a call
-            # that returns a new registry state in between may have added the very key that was tested)
-            stale = _rebound_between(cfg, t0, st, _holders(t0, reg) | _holders(st, reg))
+            # that returns a new registry state in between may have added the very key that was tested).  Taking the working copy
+            # that is then filled is not a rebinding; what it is copied from is a holder like any other.
+            copies = _alias_definitions(f.node, reg)
+            holders = _holders(t0, reg, aliases) | _holders(st, reg, aliases)
+            for c_ in copies:
+                holders |= _holders(c_, reg, aliases)
+            stale = _rebound_between(cfg, t0, st, holders, benign=copies)
             rep.check(not stale, rid, ckey, "the registry is replaced between the membership test and the store: entries added in "
                                             "between under the same key are overwritten without a diagnostic", where(f, stale[0] if stale else st),
                       lhs="test " + norm(t0)[:60] + " ... " + (norm(stale[0])[:60] if stale else ""), rhs="no rebinding of the holder between test and store")
-    rep.floor("registry_stores", n_stores, 9)
+    rep.floor("registry_stores", n_stores, 8)
 
     # ---- compatibility condition of the enum builders (existing entry of another kind must be an error) ----------
     for cname in ("EnumProperty", "LiteralEnumProperty"):
@@ -248,86 +374,189 @@ def check_registries(rep: Report, ctx: Any, rid: str) -> None:
         b = c.methods.get("build")
         rep.require(b, f"{cname}.build")
         found = False
-        for n in ast.walk(b.node):
-            if isinstance(n, ast.If) and "isinstance(existing" in norm(n.test) and any(
-                    isinstance(s, ast.Return) for s in ast.walk(n)):
+        for g in region(ix, b):
+            for verdict, at, shown in _existing_compatible(g, cname):
                 found = True
-                inst_atom = [a for a in _atoms(n.test) if a.startswith("isinstance(existing")]
-                val_atom = [a for a in _atoms(n.test) if "values" in a]
-                ok = bool(inst_atom) and bool(val_atom)
-                if ok:
-                    for env, res in truth_table(n.test):
-                        own = env[inst_atom[0]] and (cname in inst_atom[0])
-                        differ = env[val_atom[0]] if "!=" in val_atom[0] else not env[val_atom[0]]
-                        must_err = (not own) or differ
-                        if must_err and not res:
-                            ok = False
-                rep.check(ok, rid, f"{short(b)}::existing-compatible",
+                rep.check(verdict, rid, f"{short(g)}::existing-compatible",
                           "an existing class of another kind or with other values under the same name must be diagnosed",
-                          where(b, n), lhs=norm(n.test), rhs="true whenever existing is not this enum kind or values differ")
+                          where(g, at), lhs=shown, rhs="only error returns are reachable whenever existing is not this enum kind or values differ")
         rep.require(found, f"{cname}.build compatibility test")
 
     check_param_conflicts(rep, ctx, rid, cfgs)
 
 
-def check_param_conflicts(rep: Report, ctx: Any, rid: str, cfgs: "dict[str, CFG] | None" = None) -> None:
-    """conflict resolution of operation parameters ends in a re-check; reserved names are examined for every parameter"""
-    ix = ctx.py
-    cfgs = cfgs if cfgs is not None else {}
-    ep = ix.cls("Endpoint")
-    f = ep.methods.get("_check_parameters_for_conflicts")
-    rep.require(f, "Endpoint._check_parameters_for_conflicts")
-    cfg = cfg_of(f, cfgs)
-    reserved = reserved_lists(f)
-    loops = [n for n in ast.walk(f.node) if isinstance(n, ast.For) and any(
-        isinstance(x, ast.Compare) and isinstance(x.ops[0], ast.In) and norm(x.comparators[0]) in reserved for s_ in n.body for x in ast.walk(s_))]
-    rep.require(loops, "parameter loop (with the reserved-name test) in _check_parameters_for_conflicts")
-    loop = loops[0]
-    renames = [s for s in cfg.stmts() if stmt_calls(s, "set_python_name")]
-    rep.floor("parameter_renames", len(renames), 3)
-    mods = modification_sets(f)
-    rep.require(mods, "the set handed to the recursive re-run (previously_modified_params=...)")
-
-    def records(n: object) -> bool:
-        return isinstance(n, ast.stmt) and any(r in mods and any(c is x for x in walk_own(n)) for r, c in receivers(n, "add"))
-
-    for s in renames:
-        # every path from the rename back to the loop head records the modification (forcing the recursive re-run)
-        ok = cfg.every_path_passes(s, loop, records)
-        rep.check(ok, rid, f"{short(f)}::rename->{anon(s, local_names(f.node))[:60]}",
-                  "a parameter is renamed but the change is not recorded in modified_params on every path: no re-check runs",
-                  where(f, s), lhs=norm(s)[:80], rhs="followed by <modified set>.add on every path to the next iteration")
-    tail = [s for s in cfg.stmts() if isinstance(s, ast.Return) and s.value is not None and stmt_calls(s, "_check_parameters_for_conflicts")]
-    rep.check(bool(tail), rid, f"{short(f)}::re-run", "the conflict check no longer re-runs itself after modifications",
-              where(f, f.node), lhs="recursive return", rhs="present")
-    for s in cfg.stmts():
-        if isinstance(s, ast.Return) and isinstance(s.value, ast.Name) and s.value.id == "self":
-            ok = cfg.is_dominated_by(s, lambda n: n is loop)
-            rep.check(ok, rid, f"{short(f)}::success-return", "a success return is reachable without visiting the parameters "
-                                                               "(reserved names / collisions unchecked)", where(f, s),
-                      lhs="return self", rhs="dominated by the loop over all parameters")
-    # reserved names cover the keyword parameters the endpoint functions themselves declare is checked by C18 (R18.2)
-
-    # naming conflict of model attributes: the raw-name fallback is followed by an equality re-check
-    g = ix.func("model_property._resolve_naming_conflict")
-    cfg2 = cfg_of(g, cfgs)
-    sets = [s for s in cfg2.stmts() if stmt_calls(s, "set_python_name")]
-    cmp_ = [s for s in cfg2.stmts() if isinstance(s, ast.If) and "python_name" in norm(s.test) and "==" in norm(s.test)]
-    ok = bool(sets) and bool(cmp_) and all(cfg2.every_path_passes(s, "EXIT", lambda n: n in cmp_) for s in sets) and \
-        any(returns_error(r, set()) for c_ in cmp_ for r in ast.walk(c_) if isinstance(r, ast.stmt))
-    rep.check(ok, rid, f"{short(g)}::re-check", "raw-name fallback is not followed by an equality test that returns an error",
-              where(g, g.node), lhs="set_python_name(..., skip_snake_case=True) x2", rhs="then `if first.python_name == second.python_name: return PropertyError`")
+def _lookup(e: ast.AST, aliases: dict[str, str]) -> bool:
+    """e reads one entry of an attribute registry: <...>.reg[K] / .get(K) / .pop(K)"""
+    if isinstance(e, ast.Subscript):
+        return bool(_reg_of(e.value, ATTR_REGISTRIES, aliases))
+    if isinstance(e, ast.Call) and isinstance(e.func, ast.Attribute) and e.func.attr in ("get", "pop") and e.args:
+        return bool(_reg_of(e.func.value, ATTR_REGISTRIES, aliases))
+    return False
 
 
-def modification_sets(f: FuncInfo) -> set[str]:
-    """locals handed to the recursive call as previously_modified_params: a change recorded there forces a re-check"""
-    out = set()
-    for c in ast.walk(f.node):
-        if isinstance(c, ast.Call) and call_name(c).endswith("_check_parameters_for_conflicts"):
-            for k in c.keywords:
-                if k.arg == "previously_modified_params" and isinstance(k.value, ast.Name):
-                    out.add(k.value.id)
+def _existing_compatible(g: FuncInfo, cname: str) -> list[tuple[bool, ast.AST, str]]:
+    """The decision "may the class already registered under this name be reused" in g, if g takes it: (verdict, where, test shown).
+
+    The registered entry is found by role - an expression that reads one entry of a registry, or a local bound to one - and the
+    decision is every `if` that asks for its type (isinstance).  It is evaluated over the paths, not over its text: with the entry
+    present, whenever it is not of this enum kind or its values differ, only error returns / raises may be reachable from the lookup
+    onwards (early return or nested if, either branch order, one combined test or several)."""
+    fn = g.node
+    aliases = _aliases(fn)
+    lc = _locals(fn)
+    existing = {name for name, ds in lc.defs.items() if any(k == "assign" and v is not None and _lookup(v, aliases) for k, _, v in ds)}
+
+    def is_existing(e: ast.AST) -> bool:
+        return (isinstance(e, ast.Name) and e.id in existing) or _lookup(e, aliases)
+
+    def kind_atom(e: ast.AST) -> "bool | None":
+        """isinstance(<existing>, C): True when C is this enum class (or cls), False for another class, None when e is something else"""
+        if isinstance(e, ast.Call) and call_name(e) == "isinstance" and len(e.args) == 2 and is_existing(e.args[0]):
+            classes = {(dotted(x) or "").rsplit(".", 1)[-1] for x in (e.args[1].elts if isinstance(e.args[1], ast.Tuple) else [e.args[1]])}
+            return classes <= {cname, "cls"}
+        return None
+
+    once = _single_assignments(fn)
+    deciding = [n for n in ast.walk(fn) if isinstance(n, ast.If) and any(kind_atom(x) is not None for x in ast.walk(_inline_locals(n.test, fn)))]
+    if not deciding:
+        return []
+    first = min(deciding, key=lambda n: n.lineno)
+    # where the entry is looked up: the binding of the local, or the deciding statement itself when the lookup is written inline
+    lookups = [st for name in existing for k, st, v in lc.defs[name] if isinstance(st, ast.stmt)] or [first]
+    cfg = CFG(fn)
+    after: set[object] = set()
+    for st in lookups:
+        after |= cfg.reachable_from(st)
+    errs = error_names(fn)
+    ok = True
+    for own, differ in ((False, False), (False, True), (True, True)):
+        def ev(t: ast.expr, own: bool = own, differ: bool = differ, depth: int = 3) -> "bool | None":
+            if isinstance(t, ast.UnaryOp) and isinstance(t.op, ast.Not):
+                x = ev(t.operand, own, differ, depth)
+                return None if x is None else not x
+            if isinstance(t, ast.BoolOp):
+                xs = [ev(x, own, differ, depth) for x in t.values]
+                if isinstance(t.op, ast.And):
+                    return False if any(x is False for x in xs) else (True if all(x is True for x in xs) else None)
+                return True if any(x is True for x in xs) else (False if all(x is False for x in xs) else None)
+            k = kind_atom(t)
+            if k is not None:
+                return own if k else (None if not own else False)
+            if isinstance(t, ast.Compare) and len(t.ops) == 1:
+                op, l, r = t.ops[0], t.left, t.comparators[0]
+                if isinstance(op, (ast.Eq, ast.NotEq)) and any(isinstance(x, ast.Attribute) and x.attr == "values" and is_existing(x.value) for x in (l, r)):
+                    return differ == isinstance(op, ast.NotEq)
+                # the entry is present: `existing is (not) None`, `K (not) in <registry>`
+                if isinstance(op, (ast.Is, ast.IsNot)) and isinstance(r, ast.Constant) and r.value is None and is_existing(l):
+                    return isinstance(op, ast.IsNot)
+                if isinstance(op, (ast.In, ast.NotIn)) and _reg_of(r, ATTR_REGISTRIES, aliases):
+                    return isinstance(op, ast.In)
+            if is_existing(t):
+                return True
+            if isinstance(t, ast.Name) and t.id in once and depth > 0:
+                # the decision (or a part of it) kept in a local first
+                return ev(once[t.id], own, differ, depth - 1)
+            return None
+
+        terms, falls = terminals(fn.body, ev)
+        for t in terms:
+            if t in after and not (isinstance(t, ast.Raise) or returns_error(t, errs)):
+                ok = False
+        if falls:
+            ok = False
+    return [(ok, first, "; ".join(norm(n.test) for n in sorted(deciding, key=lambda n: n.lineno))[:200])]
+
+
+# ---- conflict resolution of operation parameters ---------------------------------------------------------------------------------
+def _helpers_of(ix: Any, f: FuncInfo) -> dict[str, FuncInfo]:
+    return {h.name: h for h in region(ix, f) if h is not f}
+
+
+def _adds_into(g: FuncInfo, st: ast.stmt, helpers: "dict[str, FuncInfo] | None" = None, depth: int = 1) -> set[str]:
+    """names of g (locals or parameters) that statement st itself adds an element to: `N.add(..)` / `N.update(..)` / `N |= ..`, or a
+    call to a private helper that does so with the parameter N is handed to"""
+    out: set[str] = set()
+    if isinstance(st, ast.AugAssign) and isinstance(st.op, ast.BitOr) and isinstance(st.target, ast.Name):
+        out.add(st.target.id)
+    for c in walk_own(st):
+        if not isinstance(c, ast.Call):
+            continue
+        if isinstance(c.func, ast.Attribute) and c.func.attr in ("add", "update") and isinstance(c.func.value, ast.Name):
+            out.add(c.func.value.id)
+        h = (helpers or {}).get(call_name(c).rsplit(".", 1)[-1])
+        if h is not None and depth > 0:
+            # the helper adds into its parameter on every path through it (an addition made on some paths only records nothing)
+            hcfg = CFG(h.node)
+            for p_, a in _bind_call(h, c).items():
+                if isinstance(a, ast.Name) and hcfg.every_path_passes(
+                        "ENTRY", "EXIT", lambda n, p_=p_: isinstance(n, ast.stmt) and p_ in _adds_into(h, n, helpers, depth - 1)):
+                    out.add(a.id)
     return out
+
+
+def _names_behind(e: ast.AST, fn: ast.AST, depth: int = 3) -> set[str]:
+    """the names e is computed from, through the locals it reads (transitively)"""
+    lc = _locals(fn)
+    seen: set[str] = set()
+    frontier = names_in_load(e)
+    for _ in range(depth + 1):
+        nxt: set[str] = set()
+        for n in frontier - seen:
+            seen.add(n)
+            for v in lc.values_of(n):
+                nxt |= names_in_load(v)
+        frontier = nxt
+    return seen
+
+
+def _own_rerun_sets(f: FuncInfo) -> set[str]:
+    """names of f whose content decides whether f's work is done once more: handed to a recursive call of f, or - when the work is
+    repeated by a `while` loop - bound inside that loop and read (directly or through locals computed from it) by a test of the loop"""
+    out: set[str] = set()
+    for c in ast.walk(f.node):
+        if isinstance(c, ast.Call) and call_name(c).rsplit(".", 1)[-1] == f.name:
+            out |= {a.id for a in [*c.args, *[k.value for k in c.keywords]] if isinstance(a, ast.Name)}
+    for w in ast.walk(f.node):
+        if not isinstance(w, ast.While):
+            continue
+        inside = [n for s in w.body for n in ast.walk(s)]
+        bound = {n.id for n in inside if isinstance(n, ast.Name) and isinstance(n.ctx, ast.Store)}
+        read: set[str] = set()
+        for t in [w.test] + [n.test for n in inside if isinstance(n, (ast.If, ast.While))]:
+            read |= _names_behind(t, f.node)
+        out |= bound & read
+    return out
+
+
+def modification_sets(f: FuncInfo, ix: Any = None) -> set[str]:
+    """the sets in which f records that it changed something and that decide whether another pass runs: names of f that elements are
+    added to and that are re-run sets of f itself, or parameters of f that receive a re-run set of the function calling f (the pass
+    was extracted from its driver)"""
+    adds: set[str] = set()
+    helpers = _helpers_of(ix, f) if ix is not None else {}
+    for st in ast.walk(f.node):
+        if isinstance(st, ast.stmt):
+            adds |= _adds_into(f, st, helpers)
+    out = adds & _own_rerun_sets(f)
+    if ix is not None and f.name.startswith("_"):
+        for d in ix.all_functions:
+            if d is f or d.module is not f.module or (f.cls is not None and d.cls is not f.cls):
+                continue
+            calls = [c for c in ast.walk(d.node) if isinstance(c, ast.Call) and call_name(c).rsplit(".", 1)[-1] == f.name]
+            if not calls:
+                continue
+            drv = _own_rerun_sets(d)
+            for c in calls:
+                out |= {p_ for p_, a in _bind_call(f, c).items() if p_ in adds and isinstance(a, ast.Name) and a.id in drv}
+    return out
+
+
+def _string_table(v: ast.AST | None) -> "list[str] | None":
+    if isinstance(v, ast.Call) and call_name(v) in ("frozenset", "set", "tuple", "list") and len(v.args) == 1:
+        v = v.args[0]
+    if isinstance(v, (ast.List, ast.Tuple, ast.Set)) and v.elts and all(isinstance(e, ast.Constant) and isinstance(e.value, str) for e in v.elts):
+        return [e.value for e in v.elts]
+    return None
 
 
 def reserved_lists(f: FuncInfo) -> dict[str, list[str]]:
@@ -335,10 +564,218 @@ def reserved_lists(f: FuncInfo) -> dict[str, list[str]]:
     out = {}
     for name, ds in Locals(f.node).defs.items():
         for k, _, v in ds:
-            if k == "assign" and isinstance(v, (ast.List, ast.Tuple, ast.Set)) and v.elts and all(
-                    isinstance(e, ast.Constant) and isinstance(e.value, str) for e in v.elts):
-                out[name] = [e.value for e in v.elts]
+            tbl = _string_table(v) if k == "assign" else None
+            if tbl is not None:
+                out[name] = tbl
     return out
+
+
+def _reserved_table(g: FuncInfo, e: ast.AST) -> "list[str] | None":
+    """the strings of the table expression e of g: written in place, a local of g, a module-level constant or a class constant"""
+    tbl = _string_table(e)
+    if tbl is not None:
+        return tbl
+    if isinstance(e, ast.Name):
+        if e.id in reserved_lists(g):
+            return reserved_lists(g)[e.id]
+        return _string_table(g.module.variables.get(e.id))
+    if isinstance(e, ast.Attribute) and isinstance(e.value, ast.Name) and g.cls is not None and e.value.id in ("self", "cls", g.cls.name):
+        return _string_table(g.cls.classvars.get(e.attr))
+    return None
+
+
+def _reserved_tests(g: FuncInfo, node: ast.AST) -> list[tuple[ast.Compare, list[str]]]:
+    """comparisons `<x>.python_name in <table of strings>` inside node"""
+    out = []
+    for x in ast.walk(node):
+        if isinstance(x, ast.Compare) and len(x.ops) == 1 and isinstance(x.ops[0], (ast.In, ast.NotIn)) and \
+                isinstance(x.left, ast.Attribute) and x.left.attr == "python_name":
+            tbl = _reserved_table(g, x.comparators[0])
+            if tbl is not None:
+                out.append((x, tbl))
+    return out
+
+
+def parameter_passes(ix: Any, f: FuncInfo) -> list[tuple[FuncInfo, ast.For]]:
+    """the loops over the parameters of an operation that test each python_name against the reserved names, in f or in the private
+    helpers f delegates to: (function, loop)"""
+    out = []
+    for g in region(ix, f):
+        loops = [n for n in ast.walk(g.node) if isinstance(n, ast.For) and any(_reserved_tests(g, s_) for s_ in n.body)]
+        # the outermost such loop of g is the pass
+        for lp in loops:
+            if not any(o is not lp and any(x is lp for x in ast.walk(o)) for o in loops):
+                out.append((g, lp))
+    return out
+
+
+def endpoint_reserved_names(ix: Any) -> set[str]:
+    """the parameter names an operation reserves for itself: the strings every parameter's python_name is tested against in the
+    parameter pass of Endpoint._check_parameters_for_conflicts, wherever that pass lives (the method or a helper it delegates to)"""
+    f = ix.cls("Endpoint").methods.get("_check_parameters_for_conflicts")
+    out: set[str] = set()
+    if f is None:
+        return out
+    for g, lp in parameter_passes(ix, f):
+        for s_ in lp.body:
+            for _, tbl in _reserved_tests(g, s_):
+                out |= set(tbl)
+    return out
+
+
+def _true_at_entry(cfg: CFG, fn: ast.AST, w: ast.While) -> bool:
+    """the test of `while` loop w holds when the loop is first reached (its body runs at least once): a constant, or built with
+    not / and / or from locals whose only binding outside the loop is a constant assigned on every path to the loop"""
+    inside = {id(n) for b in w.body for n in ast.walk(b)}
+    dom = cfg.dominators().get(w, set())
+    lc = _locals(fn)
+
+    def val(e: ast.expr) -> "bool | None":
+        if isinstance(e, ast.Constant):
+            return bool(e.value)
+        if isinstance(e, ast.Name):
+            outer = [(st, v) for k, st, v in lc.defs.get(e.id, []) if id(st) not in inside]
+            if len(outer) == 1 and isinstance(outer[0][1], ast.Constant) and outer[0][0] in dom:
+                return bool(outer[0][1].value)
+            return None
+        if isinstance(e, ast.UnaryOp) and isinstance(e.op, ast.Not):
+            x = val(e.operand)
+            return None if x is None else not x
+        if isinstance(e, ast.BoolOp):
+            xs = [val(x) for x in e.values]
+            if isinstance(e.op, ast.And):
+                return True if all(x is True for x in xs) else (False if any(x is False for x in xs) else None)
+            return True if any(x is True for x in xs) else (False if all(x is False for x in xs) else None)
+        return None
+
+    return val(w.test) is True
+
+
+def _passes_before(cfg: CFG, fn: ast.AST, node: object, is_pass: Any) -> bool:
+    """every path from the entry of fn to `node` visits a statement satisfying is_pass.  Dominance on the statement graph, except that a
+    `while` loop whose test holds when it is first reached cannot be skipped: leaving it from its head is only possible after a trip
+    through its body (do-while written with `while True` / a flag)."""
+    forced = {id(w): {id(n) for b in w.body for n in ast.walk(b)} for w in ast.walk(fn) if isinstance(w, ast.While) and _true_at_entry(cfg, fn, w)}
+    start = ("ENTRY", frozenset())
+    seen = {start}
+    stack = [start]
+    while stack:
+        n, been = stack.pop()
+        if n is node:
+            return False
+        for s_ in cfg.succ.get(n, ()):
+            if s_ is not node and is_pass(s_):
+                continue
+            b2 = been
+            if id(n) in forced and id(n) not in been:
+                if id(s_) not in forced[id(n)]:
+                    continue  # first time at the head: only into the body
+            # arriving at a forced loop's head from inside its body: from now on the head may be left
+            if id(s_) in forced and id(n) in forced[id(s_)]:
+                b2 = been | {id(s_)}
+            st_ = (s_, b2)
+            if st_ not in seen:
+                seen.add(st_)
+                stack.append(st_)
+    return True
+
+
+def check_param_conflicts(rep: Report, ctx: Any, rid: str, cfgs: "dict[str, CFG] | None" = None) -> None:
+    """conflict resolution of operation parameters ends in a re-check; reserved names are examined for every parameter.  The check is
+    a pass over all parameters plus something that repeats the pass while it changed anything; pass and repetition may be one
+    function (the pass calls itself again) or two (a driver loop around an extracted pass): every fact is stated over the region."""
+    ix = ctx.py
+    cfgs = cfgs if cfgs is not None else {}
+    ep = ix.cls("Endpoint")
+    f = ep.methods.get("_check_parameters_for_conflicts")
+    rep.require(f, "Endpoint._check_parameters_for_conflicts")
+    passes = parameter_passes(ix, f)
+    rep.require(passes, "parameter loop (with the reserved-name test) in _check_parameters_for_conflicts")
+    g, loop = passes[0]
+    reg = region(ix, f)
+    renames = [(h, s) for h in reg for s in cfg_of(h, cfgs).stmts() if stmt_calls(s, "set_python_name")]
+    rep.floor("parameter_renames", len(renames), 2)
+    mods = modification_sets(g, ix)
+    rep.require(mods, "the set in which the parameter pass records its renames and which decides the re-run")
+    helpers = _helpers_of(ix, g)
+    cfg_g = cfg_of(g, cfgs)
+
+    def records_in(h: FuncInfo, hmods: set[str]) -> Any:
+        hh = _helpers_of(ix, h)
+        return lambda n: isinstance(n, ast.stmt) and bool(_adds_into(h, n, hh) & hmods)
+
+    for h, s in renames:
+        # every path from the rename to the next parameter records the modification (which forces another pass)
+        if h is g:
+            ok = bool(_adds_into(g, s, helpers) & mods) or cfg_g.every_path_passes(s, loop, records_in(g, mods))
+        else:
+            # renamed inside a helper of the pass: recorded before the helper returns, or after each call of it in the pass
+            hm = modification_sets(h, ix) if h is not f else set()
+            ok = bool(hm) and cfg_of(h, cfgs).every_path_passes(s, "EXIT", records_in(h, hm))
+            if not ok:
+                sites = [c for c in cfg_g.stmts() if stmt_calls(c, h.name)]
+                ok = bool(sites) and all(bool(_adds_into(g, c, helpers) & mods) or cfg_g.every_path_passes(c, loop, records_in(g, mods))
+                                         for c in sites)
+        rep.check(ok, rid, f"{short(h)}::rename->{anon(s, local_names(h.node))[:60]}",
+                  "a parameter is renamed but the change is not recorded in modified_params on every path: no re-check runs",
+                  where(h, s), lhs=norm(s)[:80], rhs="followed by <modified set>.add on every path to the next iteration")
+    # the pass is repeated: it calls the check again, or the check drives it from a loop whose continuation reads the recorded set
+    recursive = [s for h in reg for s in cfg_of(h, cfgs).stmts() if stmt_calls(s, f.name)]
+    driven = g is not f and any(isinstance(w, ast.While) and any(stmt_calls(s, g.name) for b in w.body for s in ast.walk(b) if isinstance(s, ast.stmt))
+                                for w in ast.walk(f.node)) and bool(_own_rerun_sets(f))
+    looped = g is f and any(isinstance(w, ast.While) and any(x is loop for b in w.body for x in ast.walk(b)) for w in ast.walk(f.node)) \
+        and bool(_own_rerun_sets(f))
+    rep.check(bool(recursive) or driven or looped, rid, f"{short(f)}::re-run", "the conflict check no longer re-runs itself after modifications",
+              where(f, f.node), lhs="recursive call / driver loop", rhs="present")
+    # no success without the pass: in the function holding the loop every return that is not an error comes after the loop; in the
+    # check itself (when the pass was extracted) every such return comes after the call of the pass
+    scopes: list[tuple[FuncInfo, Any]] = [(g, lambda n: n is loop)]
+    if g is not f:
+        scopes.append((f, lambda n: isinstance(n, ast.stmt) and bool(stmt_calls(n, g.name))))
+    for h, is_pass in scopes:
+        cfg_h = cfg_of(h, cfgs)
+        herrs = error_names(h.node)
+        for s in cfg_h.stmts():
+            if isinstance(s, ast.Return) and not returns_error(s, herrs):
+                ok = _passes_before(cfg_h, h.node, s, is_pass)
+                rep.check(ok, rid, f"{short(h)}::success-return", "a success return is reachable without visiting the parameters "
+                                                                   "(reserved names / collisions unchecked)", where(h, s),
+                          lhs=norm(s)[:60], rhs="dominated by the loop over all parameters")
+    # reserved names cover the keyword parameters the endpoint functions themselves declare is checked by C18 (R18.2)
+
+    # naming conflict of model attributes: the raw-name fallback is followed by an equality re-check
+    g2 = ix.func("model_property._resolve_naming_conflict")
+    cfg2 = cfg_of(g2, cfgs)
+    sets = [s for s in cfg2.stmts() if stmt_calls(s, "set_python_name")]
+
+    def names_equal(t: ast.expr) -> "bool | None":
+        """value of test atom t when the two python names are (still) equal; None for any other test"""
+        if isinstance(t, ast.Name) and t.id in _single_assignments(g2.node):
+            t = _single_assignments(g2.node)[t.id]
+        if isinstance(t, ast.Compare) and len(t.ops) == 1 and isinstance(t.ops[0], (ast.Eq, ast.NotEq)) and \
+                all(isinstance(y, ast.Attribute) and y.attr == "python_name" for y in (t.left, t.comparators[0])):
+            return isinstance(t.ops[0], ast.Eq)
+        return None
+
+    # after the raw-name fallback the two names are compared again, and while they are equal nothing but an error comes out:
+    # evaluated over the paths (early return or nested, == or != with swapped branches, the comparison kept in a local first)
+    after: set[object] = set()
+    for s in sets:
+        after |= cfg2.reachable_from(s)
+    terms, falls = terminals(g2.node.body, names_equal)
+    compared = any(names_equal(x) is not None for st in after if isinstance(st, ast.If) for x in ast.walk(st.test))
+    ok = bool(sets) and compared and not falls and all(isinstance(t, ast.Raise) or returns_error(t, error_names(g2.node)) for t in terms if t in after)
+    rep.check(ok, rid, f"{short(g2)}::re-check", "raw-name fallback is not followed by an equality test that returns an error",
+              where(g2, g2.node), lhs="set_python_name(..., skip_snake_case=True) x2", rhs="then `if first.python_name == second.python_name: return PropertyError`")
+
+
+_LOCALS_CACHE: dict[int, tuple[ast.AST, Locals]] = {}
+
+
+def _locals(fn: ast.AST) -> Locals:
+    if id(fn) not in _LOCALS_CACHE:
+        _LOCALS_CACHE[id(fn)] = (fn, Locals(fn))
+    return _LOCALS_CACHE[id(fn)][1]
 
 
 def _atoms(e: ast.expr) -> list[str]:
@@ -350,8 +787,12 @@ def _atoms(e: ast.expr) -> list[str]:
 def _single_assignments(fn: ast.AST) -> dict[str, ast.AST]:
     """locals of fn bound exactly once, by a plain assignment: reading them is reading their definition"""
     out = {}
-    for name, ds in Locals(fn).defs.items():
-        if len(ds) == 1 and ds[0][0] == "assign" and ds[0][2] is not None:
+    a = getattr(fn, "args", None)
+    params = {x.arg for x in [*a.posonlyargs, *a.args, *a.kwonlyargs, *([a.vararg] if a.vararg else []), *([a.kwarg] if a.kwarg else [])]} \
+        if isinstance(a, ast.arguments) else set()
+    for name, ds in _locals(fn).defs.items():
+        # a parameter that is assigned once has two bindings
+        if len(ds) == 1 and ds[0][0] == "assign" and ds[0][2] is not None and name not in params:
             out[name] = ds[0][2]
     return out
 
@@ -383,10 +824,13 @@ def names_in_load(e: ast.AST) -> set[str]:
     return {n.id for n in ast.walk(e) if isinstance(n, ast.Name) and isinstance(n.ctx, ast.Load)}
 
 
-def _inline_locals(e: ast.AST, fn: ast.AST) -> ast.AST:
-    """e with every once-assigned local of fn replaced by what it is bound to (three levels): the expression in terms of
-    parameters, loop variables and attributes, however many intermediate locals the author introduced"""
-    return _subst(e, _single_assignments(fn), rounds=3)
+def _inline_locals(e: ast.AST, fn: ast.AST, keep: "set[str] | None" = None) -> ast.AST:
+    """e with every once-assigned local of fn (except `keep`) replaced by what it is bound to (three levels): the expression in
+    terms of parameters, loop variables and attributes, however many intermediate locals the author introduced"""
+    env = _single_assignments(fn)
+    if keep:
+        env = {k: v for k, v in env.items() if k not in keep}
+    return _subst(e, env, rounds=3)
 
 
 def _innermost_for(fn: ast.AST, node: ast.AST) -> ast.For | None:
@@ -526,4 +970,4 @@ def check_module_files(rep: Report, ctx: Any, rid: str) -> None:
         rep.check(guarded, rid, key, "one file per item, named from the sanitised name, written without any collision test that "
                                      "leads to a diagnostic: two items with the same derived name overwrite each other",
                   where(f, node), lhs=norm(node)[:90], rhs="guarded by a membership test on the derived name that reaches a diagnostic")
-    rep.floor("per_item_module_files", n, 3)
+    rep.floor("per_item_module_files", n, 2)
